@@ -167,7 +167,8 @@ def build_pdu(l, pm: PathMap):
         p = EofPdu(conf, bytes(b[1:5]), b[5], fault_location=fl, condition_code=ConditionCode(b[0]))
     elif kind == K_FIN:
         fl = EntityIdTlv(b[4].to_bytes(b[5], "big")) if b[3] else None
-        p = FinishedPdu(conf, FinishedParams(DeliveryCode(b[1]), FileStatus(b[2]), ConditionCode(b[0]), fault_location=fl))
+        p = FinishedPdu(conf, FinishedParams(condition_code=ConditionCode(b[0]), delivery_code=DeliveryCode(b[1]),
+                                             file_status=FileStatus(b[2]), fault_location=fl))
     elif kind == K_ACK:
         p = AckPdu(conf, DirectiveType(b[0]), ConditionCode(b[1]), TransactionStatus(b[2]))
     elif kind == K_NAK:
@@ -270,3 +271,67 @@ SOURCE_FIELDS = ["state", "step", "num_ready", "qlen", "progress", "file_size", 
                  "empty_file", "tid_src", "tid_seq", "closure", "cond_code_eof", "ack_counter", "step_before_retx",
                  "has_remote_cfg", "has_put_req", "has_fin", "fin_cond", "fin_deliv", "fin_fstatus",
                  "check_timer_on", "check_timer_start", "check_timer_ms", "ack_timer_on", "ack_timer_start", "ack_timer_ms"]
+
+
+# ------------------------------------------------------------------ ints -> dict (for oracles)
+def dec_pdu(l):
+    kind = l[0]
+    d = dict(zip(["dir", "mode", "crc", "large", "src", "dst", "idw", "seq", "seqw"], l[1:10]))
+    d["kind"] = kind
+    b = l[10:]
+    if kind == K_FD:
+        d.update(offset=b[0], data=bytes(b[2:2 + b[1]]))
+    elif kind == K_MD:
+        d.update(closure=b[0], cktype=b[1], fsize=b[2])
+        i = 4
+        if b[3]:
+            sp, i = take_path(b, i)
+            dp, i = take_path(b, i)
+            d.update(src_name=tuple(sp), dst_name=tuple(dp))
+        else:
+            d.update(src_name=None, dst_name=None)
+        d["msgs"] = list(b[i + 1:i + 1 + b[i]])
+    elif kind == K_EOF:
+        d.update(cond=b[0], cksum=bytes(b[1:5]), fsize=b[5], fl=(b[7], b[8]) if b[6] else None)
+    elif kind == K_FIN:
+        d.update(cond=b[0], deliv=b[1], fstatus=b[2], fl=(b[4], b[5]) if b[3] else None)
+    elif kind == K_ACK:
+        d.update(acked=b[0], cond=b[1], status=b[2])
+    elif kind == K_NAK:
+        d.update(sos=b[0], eos=b[1], reqs=[(b[3 + 2 * k], b[4 + 2 * k]) for k in range(b[2])])
+    elif kind == K_KA:
+        d.update(progress=b[0])
+    elif kind == K_PROMPT:
+        d.update(resp=b[0])
+    return d
+
+
+def dec_got(extra):
+    """extra of a get op -> (pdu dict, packed_len) or None"""
+    if not extra:
+        return None
+    n = extra[0]
+    return dec_pdu(extra[1:1 + n]), extra[1 + n]
+
+
+def dec_lcfg(l):
+    """config op body (after the leading 9) -> dict"""
+    d = dict(local_id=l[0], local_idw=l[1], ind=tuple(bool(x) for x in l[2:6]))
+    nf = l[6]
+    d["faults"] = {l[7 + 2 * k]: l[8 + 2 * k] for k in range(nf)}
+    i = 7 + 2 * nf
+    d["check_ms"] = l[i]
+    nr = l[i + 1]
+    i += 2
+    rs = []
+    names = ["id", "idw", "has_max_seg", "max_seg", "max_packet", "closure", "crc", "mode", "cktype", "ack_ms", "ack_limit",
+             "check_limit", "disposition", "imm_nak", "nak_ms", "nak_limit"]
+    for _ in range(nr):
+        r = dict(zip(names, l[i:i + 16]))
+        if not r["has_max_seg"]:
+            r["max_seg"] = None
+        rs.append(r)
+        i += 16
+    d["remotes"] = rs
+    d["rest"] = l[i:]
+    return d
